@@ -308,7 +308,9 @@ def call(name, args):
         if len(args) not in (2, 3) or not _is_int(args[0]) or not _is_int(args[1]):
             raise IntrinsicFailure("bad MathRandom arguments")
         if args[0] >= args[1]:
-            raise Unspecified("empty MathRandom range")
+            raise Unspecified("empty MathRandom range")          # (a value cannot exist; whether it is a failure or something else is not specified: only 'no arbitrary exception' is asserted)
+        if len(args) == 3 and isinstance(args[2], (list, dict)):
+            raise Unspecified("MathRandom seed that is not a scalar")   # the seed's type is not specified
         return Marker("int-in-range", lo=args[0], hi=args[1])
     if name == "States.MathAdd":
         need(2)
